@@ -93,8 +93,13 @@ class ChannelList(gpp.UGenSequence, aob.AbstractSequence, list):
     def min_nyquist(self):
         return type(self)(bi.min(item, ifu.SampleRate.ir * 0.5) for item in self)
 
-    # degrad implemented with performUnaryOp, is not overridden here
-    # raddeg implemented with performUnaryOp, is not overridden here
+    def degrad(self):  # bi.degrad has no server operator, UGen overrides it.
+        return utl.list_unop(
+            lambda x: gpp.ugen_param(x).degrad(), self, type(self))
+
+    def raddeg(self):  # bi.raddeg has no server operator, UGen overrides it.
+        return utl.list_unop(
+            lambda x: gpp.ugen_param(x).raddeg(), self, type(self))
 
     def blend(self, other, frac=0.5):
         return self._multichannel_perform('blend', other, frac)
